@@ -419,6 +419,29 @@ def attribute(case, ctx, v):
         s2 = run_spec(c, stripped, ctx, case["ku"], case["ii"], case["compact"])
         if verdict(r2, s2) is None and r2[0] == case["real"][0]:
             return "null:" + kinds[0]
+        # the same criterion at the nested object itself: behind a multi-field wrapper the document without the key
+        # may be read by ANOTHER alternative, so the two whole documents are not treated alike although the class
+        # that holds the null member shows F17b on its own
+        top0 = {"t": "ref", "cls": c["name"]}
+        for path, g, x in G6.sites(top0, doc, ctx):
+            if not path or g["t"] != "ref" or type(x) is not dict:
+                continue
+            try:
+                sub_c, sub_cls = ctx.ast(g["cls"]), ctx.classes[g["cls"]]
+                fields = {fd["name"]: fd["field"] for fd in ctx.all_fields(g["cls"])}
+            except KeyError:
+                continue
+            nulls = [k for k, val in x.items() if val is None and k in fields]
+            if not nulls:
+                continue
+            r1 = run_real(sub_cls, x, case["ku"], case["ii"], False)
+            s1 = run_spec(sub_c, x, ctx, case["ku"], case["ii"], False)
+            if verdict(r1, s1) in ("over-accepts", "over-rejects"):
+                x2 = {k: val for k, val in x.items() if k not in nulls}
+                r2 = run_real(sub_cls, x2, case["ku"], case["ii"], False)
+                s2 = run_spec(sub_c, x2, ctx, case["ku"], case["ii"], False)
+                if verdict(r2, s2) is None and r2[0] == r1[0]:
+                    return "null:" + fields[nulls[0]]["t"]
     if not case["ku"]:
         # (repaired) deserialize_map did not pass keep_undefined on: below a Map the default (True) applied
         MAP_KEEPS_UNDEFINED[0] = True
